@@ -244,15 +244,31 @@ def run(prog: Program, ctx: Ctx) -> None:  # noqa: PLR0912,PLR0915
     ctx.rule("R4", "all_members = inherited members overlaid by own members (own wins); item access uses all_members, get_member uses members only; "
                    "mro() drops the class itself")
     am = prog.function("_griffe.mixins.ObjectAliasMixin.all_members")
-    ok = any(isinstance(r_, ast.Return) and isinstance(r_.value, ast.Dict) and [unparse(v) for v in r_.value.values] == ["self.inherited_members", "self.members"]
-             and all(k is None for k in r_.value.keys) for r_ in walk_no_nested(am.node))
-    ctx.ob("R4", key(am, "overlay-order"), ok, "all_members is {**inherited_members, **members} (own definitions win)", where(am))
     gi = prog.function("_griffe.mixins.GetMembersMixin.__getitem__")
     gm = prog.function("_griffe.mixins.GetMembersMixin.get_member")
-    ctx.ob("R4", key(gi, "uses-all_members"), "self.all_members" in ast.unparse(gi.node) and "self.members" not in ast.unparse(gi.node), "obj[...] sees inherited members", where(gi))
-    ctx.ob("R4", key(gm, "uses-members"), "self.members" in ast.unparse(gm.node) and "all_members" not in ast.unparse(gm.node), "get_member sees declared members only", where(gm))
-    src = ast.unparse(mro_fn.node)
-    ctx.ob("R4", key(mro_fn, "drops-self"), "self._mro()[1:]" in src, "mro() is the linearisation without the class itself", where(mro_fn))
+    # on behaviour: a class with an inherited-only member a, a member b both inherited and defined, and an own member c
+    mk = lambda n_: Obj(None, {"name": n_, "__closed__": True}, label=n_)  # noqa: E731
+    inh = {"a": mk("inherited a"), "b": mk("inherited b")}
+    own = {"b": mk("own b"), "c": mk("own c")}
+    subject = Obj(ccls, {"name": "S", "path": "m.S", "is_class": True, "is_alias": False, "members": dict(own), "inherited_members": dict(inh)}, label="S")
+    try:
+        got_all: object = it.getattr(subject, "all_members")
+    except Raised as r:
+        got_all = f"raises {r.exc}"
+    want_all = {"a": inh["a"], "b": own["b"], "c": own["c"]}
+    ctx.ob("R4", key(am, "overlay-order"), isinstance(got_all, dict) and got_all == want_all and list(got_all) == ["a", "b", "c"],
+           f"all_members of a class inheriting a, b and defining b, c: {got_all}; expected inherited members overlaid by own ones (own b wins), inherited names first", where(am))
+    for fn_, label, sees_inherited in ((gi, "obj[name]", True), (gm, "get_member(name)", False)):
+        outcome = {}
+        for n_ in ("a", "b", "c"):
+            try:
+                outcome[n_] = it.call(fn_, subject, n_)
+            except Raised as r:
+                outcome[n_] = f"raises {r.exc}"
+        want = {"a": inh["a"] if sees_inherited else "raises KeyError", "b": own["b"], "c": own["c"]}
+        ctx.ob("R4", key(fn_, "uses-all_members" if sees_inherited else "uses-members"), outcome == want,
+               f"{label} on that class: {outcome}; expected {want} ({'inherited members are visible' if sees_inherited else 'declared members only'})", where(fn_))
+    # (that mro() leaves out the class itself is part of R1: the table compares with CPython's __mro__[1:])
 
     # ------------------------------------------------------------------ R5 resolved bases
     ctx.rule("R5", "resolved_bases keeps every base that can be found, in declaration order, whatever the position of the ones that cannot "
